@@ -7,6 +7,7 @@ import (
 	"github.com/holiman/uint256"
 	"math/big"
 	"sort"
+	"strings"
 
 	"verifharness/internal/impl"
 
@@ -49,7 +50,14 @@ func worldDigest(st *state.StateDB, addrs map[common.Address]bool, keys map[comm
 		}
 	}
 	fmt.Fprintf(h, "logs=%d", len(st.Logs()))
-	return fmt.Sprintf("%x", h.Sum(nil)[:10])
+	// the digest is only comparable with digests taken over the same set of addresses: the set size is its prefix
+	return fmt.Sprintf("%d:%x", len(addrs), h.Sum(nil)[:10])
+}
+
+// sameUniverse: two world digests were taken over the same address set (it only ever grows)
+func sameUniverse(a, b string) bool {
+	i, j := strings.IndexByte(a, ':'), strings.IndexByte(b, ':')
+	return i > 0 && j > 0 && a[:i] == b[:j]
 }
 
 // transferObs is what the wrapping transfer function installed by the harness saw.
@@ -401,7 +409,7 @@ func frameOracles(cs *exCase, run *exRun, transfers []transferObs, digest0, dige
 					if (x.Kind == "state" || x.Kind == "fault") && x.Depth == e.Depth {
 						if x.Kind == "state" && !x.HasErr && x.Pc == e.Pc+1 && len(x.Stack) > 0 && x.Digest != "" {
 							failed := x.Stack[len(x.Stack)-1].IsZero()
-							if failed && isCall && x.Digest != e.Digest {
+							if failed && isCall && sameUniverse(x.Digest, e.Digest) && x.Digest != e.Digest {
 								add("C04", "the call at pc %d of %x failed (0 pushed) but the world state changed", e.Pc, e.Self[17:])
 							}
 						}
